@@ -72,17 +72,21 @@ func init() {
 				mp(P, R, "C01.b", kProofDVerify+":challenge-roles", "accept => VerifyWithChallenge(pk, createChallenge(context, nonce1, contrib, issig)) is true and contrib is this proof's ChallengeContribution(pk)", fn, AcceptTrue(0),
 					&MustPass{Match: func(a Atom) bool {
 						c, ok := callAtom(a, True, kProofDVWC)
-						if !ok || len(c.Call.Args) != 3 {
+						args := []ssa.Value(nil)
+						if ok {
+							args = callArgs(c)
+						}
+						if !ok || len(args) != 3 {
 							return false
 						}
-						if desc(c.Call.Args[0]) != "<gabi.ProofD>" || desc(c.Call.Args[1]) != "<gabikeys.PublicKey>" {
+						if desc(args[0]) != "<gabi.ProofD>" || desc(args[1]) != "<gabikeys.PublicKey>" {
 							return false
 						}
-						ch, ok := c.Call.Args[2].(*ssa.Call)
+						ch, ok := args[2].(*ssa.Call)
 						if !ok || !calleeIs(ch, "gabi.createChallenge") {
 							return false
 						}
-						ar := ch.Call.Args
+						ar := callArgs(ch)
 						return desc(ar[0]) == "arg#2" && desc(ar[1]) == "arg#3" && desc(ar[3]) == "arg#4" &&
 							desc(ar[2]) == "call:"+kProofDCC+"(<gabi.ProofD>,<gabikeys.PublicKey>)#0"
 					}})
@@ -234,7 +238,7 @@ func oversizedHashRule(P *Program, R *Report) {
 			}
 			// (a use of the function as plain "SHA-256 as integer" of an encoder's output is the challenge digest,
 			// decided by C02.b/C15.a, not an attribute replacement)
-			if ex, isEx := origin(call.Call.Args[0]).(*ssa.Extract); isEx && ex.Index == 0 {
+			if ex, isEx := origin(callArgs(call)[0]).(*ssa.Extract); isEx && ex.Index == 0 {
 				if m, isM := ex.Tuple.(*ssa.Call); isM && isCallTo(m, "encoding/asn1.Marshal") {
 					continue
 				}
@@ -242,14 +246,14 @@ func oversizedHashRule(P *Program, R *Report) {
 			R.seen(FuncKey(fn))
 			s := site{fn: fn, call: call}
 			// the hashed bytes must be x.Bytes()
-			arg := origin(call.Call.Args[0])
+			arg := origin(callArgs(call)[0])
 			bc, isCall := arg.(*ssa.Call)
 			if !isCall || bigMethod(bc) != "Bytes" {
 				s.why = "hash input is not x.Bytes()"
 				sites = append(sites, s)
 				continue
 			}
-			x := bc.Call.Args[0]
+			x := callArgs(bc)[0]
 			s.subj = desc(x)
 			// controlling condition: BitLen(x) > bound on the path to the call
 			for _, a := range controllingConds(call.Block()) {
@@ -274,7 +278,7 @@ func oversizedHashRule(P *Program, R *Report) {
 			sites = append(sites, s)
 		}
 	}
-	R.decide("C01.f", "sites:count", "at least 3 sites implement oversized-attribute hashing (verifier, prover, RepresentToBases)", len(sites) >= 3,
+	R.decide("C01.f", "sites:count", "oversized-attribute hashing sites were found (verifier, prover, RepresentToBases - or the helper they share)", len(sites) >= 1,
 		fmt.Sprintf("found %d sites", len(sites)), "")
 	roles := map[string]bool{}
 	for _, s := range sites {
@@ -291,13 +295,37 @@ func oversizedHashRule(P *Program, R *Report) {
 			good, detail = callersPassLm(P, s.fn, s.bound)
 		}
 		R.decide("C01.f", key+":guard", what, good, detail, P.Pos(s.call.Pos()))
-		switch {
-		case strings.Contains(s.subj, "<gabi.ProofD>.ADisclosed[*]"):
-			roles["verifier-disclosed"] = true
-		case strings.Contains(s.subj, "<gabi.DisclosureProofBuilder>.attributes["):
-			roles["prover-hidden"] = true
-		case key == "common.RepresentToBases":
-			roles["represent"] = true
+		// the role a site plays is read off the value it hashes; a site inside a shared helper (hash-if-oversized
+		// extracted into one function) plays the roles of the values its callers hand it
+		subjects := []string{s.subj}
+		callerKeys := []string{key}
+		if matches(`^arg#\d+`)(s.subj) {
+			for _, g := range P.AllFuncs {
+				for _, c := range callsTo(g, s.fn) {
+					cc := c
+					bindCall(cc, s.fn, func() {
+						if bc, ok := origin(callArgs(s.call)[0]).(*ssa.Call); ok && bigMethod(bc) == "Bytes" {
+							subjects = append(subjects, desc(callArgs(bc)[0]))
+						} else if bc, ok := callArgs(s.call)[0].(*ssa.Call); ok && bigMethod(bc) == "Bytes" {
+							subjects = append(subjects, desc(callArgs(bc)[0]))
+						}
+					})
+					callerKeys = append(callerKeys, FuncKey(g))
+				}
+			}
+		}
+		for _, sd := range subjects {
+			switch {
+			case strings.Contains(sd, "<gabi.ProofD>.ADisclosed[*]"):
+				roles["verifier-disclosed"] = true
+			case strings.Contains(sd, "<gabi.DisclosureProofBuilder>.attributes["):
+				roles["prover-hidden"] = true
+			}
+		}
+		for _, ck := range callerKeys {
+			if ck == "common.RepresentToBases" {
+				roles["represent"] = true
+			}
 		}
 	}
 	for _, role := range []string{"verifier-disclosed", "prover-hidden", "represent"} {
@@ -306,6 +334,11 @@ func oversizedHashRule(P *Program, R *Report) {
 }
 
 func callersPassLm(P *Program, fn *ssa.Function, argDesc string) (bool, string) {
+	return callersPassLmD(P, fn, argDesc, 0)
+}
+
+// callersPassLmD follows a bound that a caller itself received as a parameter up to that caller's callers.
+func callersPassLmD(P *Program, fn *ssa.Function, argDesc string, depth int) (bool, string) {
 	var idx int
 	fmt.Sscanf(argDesc, "arg#%d", &idx)
 	n := 0
@@ -315,10 +348,21 @@ func callersPassLm(P *Program, fn *ssa.Function, argDesc string) (bool, string) 
 				continue
 			}
 			n++
-			a, ok := affineOf(c.Common().Args[idx])
-			if !ok || a.String() != "Lm" {
-				return false, fmt.Sprintf("caller %s passes %s as the length bound, want Params.Lm", FuncKey(g), desc(c.Common().Args[idx]))
+			if idx >= len(callArgs(c)) {
+				return false, fmt.Sprintf("caller %s: no argument %d", FuncKey(g), idx)
 			}
+			a, ok := affineOf(callArgs(c)[idx])
+			if ok && a.String() == "Lm" {
+				continue
+			}
+			if d := desc(callArgs(c)[idx]); depth < 3 && matches(`^arg#\d+$`)(d) {
+				if up, detail := callersPassLmD(P, g, d, depth+1); up {
+					continue
+				} else {
+					return false, detail
+				}
+			}
+			return false, fmt.Sprintf("caller %s passes %s as the length bound, want Params.Lm", FuncKey(g), desc(callArgs(c)[idx]))
 		}
 	}
 	return n > 0, fmt.Sprintf("%d callers pass Params.Lm", n)
